@@ -1,14 +1,53 @@
 /-
 C07 — machine-checked witnesses: what goes wrong outside the guards of the positive theorems.
+
+Finding C07a: `BufferPool::take(id)` / `BufferPool::reset(id)` are safe public functions that only look
+at the slot table. Called with an id that no completion reported, they hand out (or re-queue) a buffer the
+pool / the kernel still owns. Each witness below is a concrete program executed by the same `run` / `step`
+the driver uses (and replayed on the real code by the harness, cases `raw-*`).
 -/
-import Compio.Model.Pool
+import Compio.Props.C07
 
 namespace Compio.Cex.C07
-open Compio Compio.Pool
+open Compio Compio.Pool Compio.Props.C07
+
+/-- io_uring ring, `take(0)` right after the pool was created: buffer 0 is in user hands AND still
+    provided to the kernel — two owners -/
+theorem raw_take_ring_two_owners_counterexample :
+    ((World.init .ring 2 8).map fun w => owners (run w [.take 0]) 0) = some 2 := by decide
+
+/-- … and the kernel uses it: the next managed read selects buffer 0, `set_result` finds the slot
+    empty and panics (`Buffer should not be in use`) inside `Proactor::poll` -/
+theorem raw_take_ring_kernel_reuses_held_buffer_counterexample :
+    ((World.init .ring 2 8).map fun w =>
+      (run w [.src .pipe 0, .take 0, .write 0 4, .read 0 0 0]).dead) = some true := by decide
+
+/-- dropping that handle provides id 0 a second time: 3 provided entries in a ring of 2
+    (`tail - head > len`), so a live ring entry is overwritten -/
+theorem raw_take_ring_overflows_ring_counterexample :
+    ((World.init .ring 2 8).map fun w =>
+      let w' := run w [.take 0, .drop 0]
+      (w'.pool.tail - w'.pool.head, w'.pool.n, w'.pool.window)) = some (3, 2, [0, 1, 0]) := by decide
+
+/-- `reset(id)` of a provided id does the same without any handle: the ring of 2 now holds 3 provided
+    entries, the entry of buffer 0 was overwritten — buffer 1 is provided three times, buffer 0 is lost -/
+theorem raw_reset_ring_duplicates_counterexample :
+    ((World.init .ring 2 8).map fun w =>
+      (owners (run w [.reset 1]) 1, owners (run w [.reset 1]) 0, (run w [.reset 1]).pool.window)) =
+      some (3, 0, [1, 1, 1]) := by decide
+
+/-- fallback pool: `take(0)` leaves 0 in the free queue, the drop queues it again (0 is in the queue
+    twice); after the two buffers were popped the stale entry makes the next `pop` panic
+    (`Buffer should be available`) instead of reporting `ResourceBusy` -/
+theorem raw_take_fallback_pop_panics_counterexample :
+    ((World.init .fb 2 8).map fun w =>
+      ((run w [.take 0, .drop 0]).pool.queue, (step (run w [.take 0, .drop 0, .pop, .pop]) .pop).2)) =
+      some ([0, 1, 0], .ppanic "unavailable") := by decide
 
 /-- without rounding the ring length to a power of two the index jumps when the `u16` tail wraps:
-    with 3 entries the provide at tail 65535 and the next one (tail 65536 = 0 as u16) hit the same entry -/
+    with 3 entries the provide at tail 65535 and the next one (tail 65536 = 0 as u16) hit the same entry,
+    although only one buffer is outstanding -/
 theorem ring_index_not_wraparound_safe_len3_counterexample :
-    ringIdx (65535 % 65536) 0 3 = ringIdx (65536 % 65536) 0 3 := by decide
+    ringIdx (65535 % 65536) 0 3 = ringIdx (65536 % 65536) 0 3 ∧ ¬ (3 ∣ 65536) := by decide
 
 end Compio.Cex.C07
